@@ -15,7 +15,7 @@ RULE = ("one case = one instance (p, q, c, penalty|None) plus an encoding; the i
         "int, NumPy int32/int64 or float; keyword or positional call; the arguments must come back unmodified. Shapes 1..7 "
         "(thorough ..12, some ..25), 40% unequal lengths, plus a shape-extreme class (length-1 histograms, 1-2 bins against "
         "up to 20, one side all zero, ties / zeros / upper-triangular asymmetric distances, penalty 0 and penalty < max C); "
-        "an INT_MAX class (max(C) = 2^31-1 and its neighbour 2^31-2 between empty or occupied bins, with and without regular arcs; each case in a forked process with a 5 s limit); an isolated-bin class (a non-empty bin at distance max C from every non-empty bin of the other histogram, with explicit penalties 0 .. max C - 1); masses 0..50 with many zeros, equal-mass (permuted / rebalanced) and unequal-mass; a near-bound class scaled so that "
+        "a large-magnitude class (costs and masses in 2^29..2^31-1 mixed with small ones, 1..3 bins) and the zero-length instance, both fork-isolated; an INT_MAX class (max(C) = 2^31-1 and its neighbour 2^31-2 between empty or occupied bins, with and without regular arcs; each case in a forked process with a 5 s limit); an isolated-bin class (a non-empty bin at distance max C from every non-empty bin of the other histogram, with explicit penalties 0 .. max C - 1); masses 0..50 with many zeros, equal-mass (permuted / rebalanced) and unequal-mass; a near-bound class scaled so that "
         "max(sum P,sum Q)*max C + |sum P - sum Q|*penalty lies in [0.5,1)*2^31 (huge masses or huge distances); ground "
         "distances: |i-j|, thresholded |i-j|, 2-D grid L1, shortest-path closure of a random graph (metrics), symmetric "
         "non-metric, arbitrary, constant, all-zero, 'many entries equal to max' (node removal and pre_flow_cost); penalty "
@@ -871,7 +871,7 @@ def shrink_candidates(case):
 
 MANIFEST = {
     "level_text": (
-        "Machine-checked proofs (Coq 8.16, 49 theorems, all closed under the global context). (a) The extracted certificate "
+        "Machine-checked proofs (Coq 8.16, 53 theorems, all closed under the global context). (a) The extracted certificate "
         "checker emd_cert_ok is sound for all sizes and inputs: acceptance of (P, Q, C, penalty, d, F, alpha, beta, gamma) "
         "implies that d is exactly the transportation optimum plus penalty*|sum P - sum Q| of the property text (also against "
         "fractional flows) and that F is a feasible integral flow whose cost reproduces d; the value is unique; zero padding "
@@ -899,12 +899,17 @@ MANIFEST = {
         "renaming; that the artificial node is never used (the flag is never set: checked per case, 0 of ~150 000 runs). The "
         "end-to-end statement therefore still rests on the certificate computed inside the algorithm-level model and on the "
         "per-case certificate check of the implementation's output. int is modelled by Z; int32 overflow of the answer is "
-        "excluded by generator bounds. KNOWN FINDING F21 (not excluded, generated in every run, fork-isolated with a timeout): "
-        "with max(C) = 2^31-1 the artificial-arc cost maxC + 1 wraps to INT_MIN and emd_hat_int32 never returns (witness "
-        "emd_hat_int32([1,0],[0,1],[[0,5],[2147483647,0]]), expected 5); a hang is attributed to F21 only by the models "
-        "(max(C) = 2^31-1, the as-written model Model/EmdAsIs.v does not finish, raises the companion flag and moves no supply, "
-        "the exact model returns the certified optimum; kernel-evaluated in C10_artificial_cost_wrap_refuted); any other hang, "
-        "crash or disagreement is a violation."),
+        "excluded by generator bounds. KNOWN FINDINGS, none excluded, all generated in every run in forked processes with a 5 s limit: F25 = int32 "
+        "intermediate overflow in FastEMD although every input entry and the true result fit int32 (wrong distance, flow "
+        "whose cost does not reproduce it, variants disagreeing, or a call that never returns); F21 = its member max(C) = "
+        "2^31-1 (maxC + 1 wraps for the artificial arcs; emd_hat_int32([1,0],[0,1],[[0,5],[2147483647,0]]) never returns, "
+        "expected 5); F26 = SIGSEGV on zero-length histograms with a flow type that returns a flow (NO_FLOW returns 0). "
+        "Attribution is by model, never by a blanket mute: F25 only if the AS-WRITTEN model (Model/EmdW.v: the whole pipeline "
+        "with wrap32 on every int operation) differs from the exact model on that input and reproduces the implementation's "
+        "distance and flow on every variant (or does not finish, for a hang); F21 by the as-written probe; F26 by call site "
+        "(len 0 and the process dies). Everything else that hangs, crashes or disagrees is a violation. The theorems about "
+        "optimality speak about the exact (Z-valued) models; the link 'no intermediate reaches 2^31 => as-written = exact' "
+        "is proved per operation only (C10_no_wrap_below_bound_partial)."),
     "technique": "Coq proof of a certificate checker run on the implementation's output + two executable models (certifying, and line-level with exact flow correspondence) + run-time-checked hypothesis flag",
     "design_ref": "DESIGN.md section 7, C10",
 }
